@@ -27,6 +27,10 @@ import (
 )
 
 // a parser is used to parse the contents of a single .yang file.
+// maxStatementDepth is the deepest nesting of statements the parser accepts.
+// (Modules found in practice stay below a hundred levels.)
+const maxStatementDepth = 10000
+
 type parser struct {
 	lex    *lexer
 	errout *bytes.Buffer
@@ -300,6 +304,12 @@ func (p *parser) nextStatement() *Statement {
 		return s
 	case '{':
 		p.statementDepth += 1
+		if p.statementDepth > maxStatementDepth {
+			// The parser, the AST builder and everything that walks
+			// the result recurse once per level of nesting.
+			fmt.Fprintf(p.errout, "%v: statements nested more than %d deep\n", t, maxStatementDepth)
+			return nil
+		}
 		for {
 			switch ns := p.nextStatement(); ns {
 			case nil:
